@@ -101,7 +101,7 @@ def expected(op, abi, fields, vals):
                 img.append("f" + v); back.append("f" + v)
             else:
                 img.append("0" if v == "null" else v); back.append("null" if v == "null" else "in:" + v)
-        return f"ok img={','.join(img)} back={','.join(back)}" if op == "srt" else f"ok guest={','.join(img)}"
+        return f"ok img={','.join(img)} pad=0 tail=0 back={','.join(back)}" if op == "srt" else f"ok guest={','.join(img)}"
     app = []
     for k, v in zip(kinds, vals):
         if k in st.INTS:
